@@ -5,7 +5,8 @@
     destroying a raw one sets the [bad] flag of the result (the lifetime ledger) -- the theorems show it is
     never set.  Index arithmetic: the C++ computes [x & mask_] on size_t with mask_ = capacity_-1,
     capacity_ a power of two; the model writes [x mod capacity] (and [x + cap - 1] for the wrapped
-    decrement).  That identity is "modelled, not verified"; the correspondence run exercises it. *)
+    decrement).  The identities between the two forms (with explicit 64-bit wrap-around, for every power-of-two
+    capacity up to 2^63) are proved in C16/Mask.v; the correspondence run exercises them as well. *)
 From Coq Require Import List Arith Lia Bool.
 Import ListNotations.
 
